@@ -163,7 +163,8 @@ impl<'a, D: Hooks> Runner<'a, D> {
                         m.values.push((a, v));
                     }
                     Op::AddSym => {
-                        let name = format!("nm{}", k);
+                        // every other name holds multi-byte characters (character count and byte length differ)
+                        let name = if k % 2 == 0 { format!("nm{}", k) } else { format!("größe{}é", k) };
                         let a = d.parse_add_symbol(&name).map_err(es)?;
                         let s = garnish_lang_simple_data::symbol_value(&name);
                         m.values.push((a, V::Sym(s)));
